@@ -256,14 +256,16 @@ func (c *Ctx) ruleLifecycle(rule string, want map[string]bool) {
 					if !ok {
 						return false
 					}
-					for _, pv := range x.PossibleValues(r.Results[1]) {
-						if ex, ok := pv.V.(*ssa.Extract); ok && ex.Tuple == ssa.Value(grm) && ex.Index == 0 {
+					// on executions that made this engine call: the returned map is the one
+					// read after it, the returned error is this call's
+					for _, v := range x.valuesVia(fn, ec, r, r.Results[1]) {
+						if ex, ok := v.(*ssa.Extract); ok && ex.Tuple == ssa.Value(grm) && ex.Index == 0 {
 							continue
 						}
 						return true
 					}
-					for _, pv := range x.PossibleValues(r.Results[0]) {
-						if pv.V != ssa.Value(ec) {
+					for _, v := range x.valuesVia(fn, ec, r, r.Results[0]) {
+						if v != ssa.Value(ec) {
 							return true
 						}
 					}
@@ -658,12 +660,13 @@ func (c *Ctx) ruleConstruction(rule string) {
 		})
 	}
 	pmin, pmax := ssa.Value(f.Params[0]), ssa.Value(f.Params[1])
-	// tag stores
+	fmin, fmax := x.symInt(pmin), x.symInt(pmax)
+	// tag stores: each wrapper created in a loop gets base + (iteration number); the two
+	// loops must cover [0, poolMinLen) and [poolMinLen, poolMaxLen) exactly
 	type tagStore struct {
-		val  linform
-		loop *Loop
-		add  bool
-		pos  token.Pos
+		base, count linform
+		ok          bool
+		pos         token.Pos
 	}
 	var tags []tagStore
 	eachInstr(f, func(in ssa.Instruction) {
@@ -672,55 +675,29 @@ func (c *Ctx) ruleConstruction(rule string) {
 			return
 		}
 		fa, ok := st.Addr.(*ssa.FieldAddr)
-		if !ok || structName(fa.X.Type()) != "gengineWrapper" {
+		if !ok || structName(fa.X.Type()) != "gengineWrapper" || fieldOf(fa).Name() != "tag" {
 			return
 		}
-		switch fieldOf(fa).Name() {
-		case "tag":
-			tags = append(tags, tagStore{val: x.symInt(st.Val), loop: x.InnermostLoop(st.Block()), pos: st.Pos()})
-		}
+		_, base, count, okF := x.iterForm(f, st.Val)
+		tags = append(tags, tagStore{base, count, okF, st.Pos()})
 	})
-	okTags := len(tags) == 2
+	okTags := len(tags) == 2 && tags[0].ok && tags[1].ok
 	desc := ""
 	if okTags {
 		for _, t := range tags {
-			desc += t.val.String() + "; "
+			desc += fmt.Sprintf("[%s, %s + %s); ", t.base, t.base, t.count)
 		}
-		// one equals a counter i, the other a counter j + poolMinLen
-		plain, shifted := false, false
-		for _, t := range tags {
-			d := t.val
-			if len(d.terms) == 1 && d.k == 0 {
-				plain = true
-			}
-			if len(d.terms) == 2 && d.k == 0 && d.terms[x.canon(pmin)] == 1 {
-				shifted = true
-			}
+		a, b := tags[0], tags[1]
+		if !a.base.equal(constForm(0)) {
+			a, b = b, a
 		}
-		okTags = plain && shifted
+		okTags = a.base.equal(constForm(0)) && a.count.equal(fmin) && b.base.equal(fmin) && b.base.add(b.count, 1).equal(fmax)
 	}
-	c.Check(rule, "NewGenginePool#tags", okTags, f.Pos(), "wrapper tags must be i for the initial and j+poolMinLen for the additional wrappers (a bijection onto [0,max)): %s", desc)
-	// loop bounds: counters from 0 below poolMinLen, poolMaxLen-poolMinLen, poolMaxLen
-	var bounds []string
-	for _, l := range x.Loops(f) {
-		for _, in := range l.Head.Instrs {
-			if iff, ok := in.(*ssa.If); ok {
-				if bo, ok := iff.Cond.(*ssa.BinOp); ok && bo.Op == token.LSS {
-					if cell := x.Cell(bo.X); cell != nil {
-						if _, ok := x.countedFromZero(cell); ok {
-							bounds = append(bounds, x.symInt(bo.Y).String())
-						}
-					}
-				}
-			}
-		}
-	}
-	sort.Strings(bounds)
-	wantB := []string{x.symInt(pmax).String(), x.symInt(pmin).String(), atomForm(x.canon(pmax)).add(atomForm(x.canon(pmin)), -1).String()}
-	sort.Strings(wantB)
-	c.Check(rule, "NewGenginePool#loop-bounds", strings.Join(bounds, "|") == strings.Join(wantB, "|"), f.Pos(), "construction loops run to %v, want %v", bounds, wantB)
-	// one data context and rule builder per instance, created inside the loop
+	c.Check(rule, "NewGenginePool#tags", okTags, f.Pos(), "wrapper tags must be the iteration number for the poolMinLen initial wrappers and poolMinLen + the iteration number for the poolMaxLen-poolMinLen additional ones (a bijection onto [0,max)): %s", desc)
+	// one data context and rule builder per instance, created inside the loop, for every
+	// position 0..poolMaxLen-1
 	okPriv := false
+	privWhy := "no store of a new rule builder into the instance slice found"
 	eachInstr(f, func(in ssa.Instruction) {
 		st, ok := in.(*ssa.Store)
 		if !ok {
@@ -737,19 +714,26 @@ func (c *Ctx) ruleConstruction(rule string) {
 		L := x.InnermostLoop(st.Block())
 		nb, ok := x.Origin(st.Val).(*ssa.Call)
 		if !ok || !calleeIs(nb, pBuilder, "", "NewRuleBuilder") || L == nil || !L.Blocks[nb.Block()] {
+			privWhy = "the stored rule builder is not created by NewRuleBuilder inside the loop iteration"
 			return
 		}
-		ndc, ok := x.Origin(nb.Call.Args[0]).(*ssa.Call)
-		if !ok || !calleeIs(ndc, pContext, "", "NewDataContext") || !L.Blocks[ndc.Block()] {
+		// its data context is created in the same iteration (directly, or by a constructor
+		// helper whose NewDataContext call was inlined into the loop)
+		dcFresh := false
+		if ndc, ok := x.Origin(nb.Call.Args[0]).(*ssa.Call); ok && calleeIs(ndc, pContext, "", "NewDataContext") && L.Blocks[ndc.Block()] {
+			dcFresh = true
+		}
+		if !dcFresh {
+			privWhy = "the data context handed to NewRuleBuilder is not created by NewDataContext inside the loop iteration"
 			return
 		}
-		if cell := x.Cell(ia.Index); cell != nil {
-			if _, ok := x.countedFromZero(cell); ok {
-				okPriv = true
-			}
+		if lp, base, count, okF := x.iterForm(f, ia.Index); okF && lp == L && base.equal(constForm(0)) && count.equal(fmax) {
+			okPriv = true
+		} else {
+			privWhy = "the position stored to is not the iteration number of a loop making poolMaxLen iterations"
 		}
 	})
-	c.Check(rule, "NewGenginePool#private-context-per-instance", okPriv, f.Pos(), "every rbSlice[i] must get its own NewRuleBuilder(NewDataContext()) created inside the loop iteration")
+	c.Check(rule, "NewGenginePool#private-context-per-instance", okPriv, f.Pos(), "every rbSlice[i], i in [0,poolMaxLen), must get its own NewRuleBuilder(NewDataContext()) created inside the loop iteration (%s)", privWhy)
 	// rbSlice length and max are the same parameter
 	okLen := false
 	eachInstr(f, func(in ssa.Instruction) {
